@@ -54,8 +54,9 @@ type got struct {
 func hasFragment(uri string) bool { return strings.Contains(uri, "#") }
 
 func uriClass(uri string) string {
+	l := strings.ToLower(uri) // schemes are case-insensitive (RFC 3986 3.1)
 	switch {
-	case strings.HasPrefix(uri, "https://"), strings.HasPrefix(uri, "http://"):
+	case strings.HasPrefix(l, "https://"), strings.HasPrefix(l, "http://"):
 		return "http-scheme"
 	}
 	return "custom-scheme"
@@ -180,38 +181,6 @@ func refSkeleton(w *want) []string {
 // ---------------------------------------------------------------------------
 // the oracle
 
-func sameURLNoQF(a, b string) bool {
-	cut := func(s string) string {
-		if i := strings.IndexByte(s, '#'); i >= 0 {
-			s = s[:i]
-		}
-		if i := strings.IndexByte(s, '?'); i >= 0 {
-			s = s[:i]
-		}
-		return s
-	}
-	if cut(a) == cut(b) {
-		return true
-	}
-	ua, e1 := url.Parse(a)
-	ub, e2 := url.Parse(b)
-	if e1 != nil || e2 != nil || ua.Scheme != ub.Scheme || ua.Host != ub.Host || ua.Opaque != ub.Opaque || ua.User.String() != ub.User.String() {
-		return false
-	}
-	pa, pb := ua.Path, ub.Path
-	if (ua.Scheme == "http" || ua.Scheme == "https") && ua.Host != "" {
-		// an http(s) URI without a path and the same URI with the path "/" are the
-		// same request (RFC 3986 6.2.3, RFC 9110 4.2.3): not a change of the base
-		if pa == "" {
-			pa = "/"
-		}
-		if pb == "" {
-			pb = "/"
-		}
-	}
-	return pa == pb
-}
-
 func hasQuery(uri string) bool {
 	if i := strings.IndexByte(uri, '#'); i >= 0 {
 		uri = uri[:i]
@@ -250,6 +219,14 @@ func sameAction(action, uri string) bool {
 	if action == uri {
 		return true
 	}
+	// component by component as the receiver sees them (urimodel_test.go) ...
+	if ok, _ := sameTarget(action, uri, false); !ok {
+		return false
+	}
+	if ok, _, _, _ := registeredPairsKept(action, uri); !ok {
+		return false
+	}
+	// ... and (older, overlapping) through net/url
 	ua, e1 := url.Parse(action)
 	ub, e2 := url.Parse(uri)
 	if e1 != nil || e2 != nil || ua.Scheme != ub.Scheme || ua.Host != ub.Host || ua.Path != ub.Path || ua.Opaque != ub.Opaque || ua.Fragment != ub.Fragment {
@@ -395,8 +372,10 @@ func judge(w *want, g *got) engine.Result {
 			vals[in.name] = append(vals[in.name], in.value)
 		}
 	} else {
-		if !sameURLNoQF(g.loc, w.uri) {
-			return bad("base-changed", "base-changed", uriClass(w.uri), "Location "+short(g.loc)+" is not the redirect URI")
+		// component by component, split by the generic syntax and not by net/url: scheme,
+		// userinfo, host, port and path (byte for byte) are those of the redirect URI
+		if ok, what := sameTarget(g.loc, w.uri, true); !ok {
+			return bad("base-changed", "base-changed", uriClass(w.uri), "Location "+short(g.loc)+" is not the redirect URI: the "+what+" differs")
 		}
 		// query parameters of the registered redirect URI are preserved (multiset)
 		if ru, err := url.Parse(w.uri); err == nil {
@@ -407,6 +386,15 @@ func judge(w *want, g *got) engine.Result {
 					return bad("registered-query-lost", "registered-query-lost", used, fmt.Sprintf("registered query parameter %q=%q arrived as %q in %s", k, v, hv, short(g.loc)))
 				}
 			}
+		}
+		// the same with the receiver's form decoding (pairs separated by '&' only, lenient
+		// escapes): net/url silently drops a pair it does not like, on both sides
+		if ok, k, wv, hv := registeredPairsKept(g.loc, w.uri); !ok {
+			class := used
+			if c := pairClass(rawPairOf(splitURI(w.uri).query, k)); c != "" {
+				class = c
+			}
+			return bad("registered-query-lost", "registered-query-lost", class, fmt.Sprintf("registered query parameter %q=%q arrived as %q in %s", k, wv, hv, short(g.loc)))
 		}
 	}
 
